@@ -4,6 +4,8 @@ import RustCcModel.Proofs.WeakInv4
 namespace RustCc
 open World
 
+variable {ex : Bool}
+
 theorem wcOk_cons (f : Frame) (rest : List Frame) :
     wcOk (f :: rest) ↔ (∀ id, f.wcId = some id → id ∈ cycs rest) ∧ wcOk rest := Iff.rfl
 
